@@ -111,6 +111,12 @@ func v39Check(content string) (fails []hlib.Failure) {
 		if md := bc.Metadata(); md.CodeKind != barcode.TypeCode39 || md.Dimensions != 1 {
 			fail("metadata", fmt.Sprint(md))
 		}
+		// C14: the value is unchanged by scaling
+		if sc, serr := barcode.Scale(bc, 2*bd.Dx()+1, 5); serr != nil {
+			fail("checksum-scaled", "Scale failed: "+serr.Error())
+		} else if scs, ok := sc.(barcode.BarcodeIntCS); !ok || scs.CheckSum() != bc.CheckSum() {
+			fail("checksum-scaled", "the scaled barcode reports a different CheckSum() or none")
+		}
 		// C14: the checksum value, also when no check character is drawn
 		if cc, cerr := onedspec.C39CheckChar(data); cerr == nil {
 			v, _ := onedspec.C39Value(cc)
@@ -124,8 +130,9 @@ func v39Check(content string) (fails []hlib.Failure) {
 	return
 }
 
-func TestVerifC07Code39(t *testing.T) {
-	r := hlib.New("C07")
+func v39Main(t *testing.T, id string, only ...string) {
+	r := hlib.New(id)
+	r.Only = only
 	defer r.Done(t)
 	rng := rand.New(rand.NewSource(r.Seed))
 	thorough := r.Tier == "thorough"
@@ -154,7 +161,7 @@ func TestVerifC07Code39(t *testing.T) {
 		}
 	}
 	flush()
-	n := 20000
+	n := 100000
 	if thorough {
 		n = 1500000
 	}
@@ -187,4 +194,14 @@ func TestVerifC07Code39(t *testing.T) {
 		}
 	}
 	flush()
+}
+
+func TestVerifC07Code39(t *testing.T) { v39Main(t, "C07") }
+
+// The same cases reported under the other properties they serve (only the named checks count).
+func TestVerifC10Code39(t *testing.T) {
+	v39Main(t, "C10", "panic", "result-shape", "rejects-representable", "accepts-unrepresentable")
+}
+func TestVerifC14Code39(t *testing.T) {
+	v39Main(t, "C14", "checksum", "check-character", "checksum-scaled")
 }
